@@ -55,10 +55,14 @@ def build_generic(body):
     from xdsl.ir import Block, Region
     from xdsl.ir.affine import AffineMap
 
-    argw, ops, y = body
-    tys = [IntegerType(w) for w in argw]
+    argw, ops, y = body[:3]
+    captured = body[3] if len(body) > 3 else frozenset()  # positions that are values defined in front of the generic
+    alltys = [IntegerType(w) for w in argw]
+    tys = [t for i, t in enumerate(alltys) if i not in captured]
     b = Block(arg_types=tys)
-    vals = list(b.args)
+    outer = [test.TestOp(result_types=[alltys[i]]) for i in sorted(captured)]
+    it_args, it_out = iter(b.args), iter(outer)
+    vals = [next(it_out).res[0] if i in captured else next(it_args) for i in range(len(argw))]
     K = {"addi": arith.AddiOp, "muli": arith.MuliOp, "subi": arith.SubiOp}
     for op in ops:
         if op[0] == "extsi":
@@ -72,8 +76,16 @@ def build_generic(body):
     m = builtin.AffineMapAttr(AffineMap.identity(1))
     g = linalg.GenericOp([s.res[0] for s in srcs[:-1]], [srcs[-1].res[0]], Region(b), [m] * len(tys),
                          [linalg.IteratorTypeAttr.parallel()])
-    mod = builtin.ModuleOp([*srcs, g])
+    mod = builtin.ModuleOp([*outer, *srcs, g])
     return mod
+
+
+def outer_values(mod):
+    """scalar values defined in front of the generic (captured by its body), in definition order."""
+    from xdsl.dialects import test
+    from xdsl.dialects.builtin import IntegerType
+
+    return [o.res[0] for o in mod.walk() if isinstance(o, test.TestOp) and o.res and isinstance(o.res[0].type, IntegerType)]
 
 
 def find_generic(mod):
@@ -82,12 +94,14 @@ def find_generic(mod):
     return [o for o in mod.walk() if isinstance(o, linalg.GenericOp)][0]
 
 
-def eval_body(block, argvals, handlers=None):
+def eval_body(block, argvals, handlers=None, outer=None):
     I = irsym.Interp(W=64)
     I.handlers["linalg.yield"] = lambda I, op: tuple(I.get(o) for o in op.operands)
     if handlers:
         I.handlers.update(handlers)
     for a, v in zip(block.args, argvals):
+        I.set(a, v)
+    for a, v in (outer or []):
         I.set(a, v)
     r = I.run_block(block)
     return r[0]
@@ -105,6 +119,8 @@ def case_body(body):
     from snaxc.transforms.convert_kernel_to_linalg import ConvertKernelToLinalg
     from snaxc.transforms.convert_linalg_to_kernel import ConvertLinalgToKernel
 
+    captured = body[3] if len(body) > 3 else frozenset()
+
     def pipeline():
         ctx = xshim.make_ctx()
         m0 = build_generic(body)
@@ -119,9 +135,11 @@ def case_body(body):
     def fn():
         m0, m1, m2, rec = pipeline()
         argw = body[0]
-        args = [z3.BitVec(f"x{i}", w) for i, w in enumerate(argw)]
-        f0 = eval_body(find_generic(m0).body.block, args)
-        f2 = eval_body(find_generic(m2).body.block, args)
+        allv = [z3.BitVec(f"x{i}", w) for i, w in enumerate(argw)]
+        args = [v for i, v in enumerate(allv) if i not in captured]
+        outs = [v for i, v in enumerate(allv) if i in captured]
+        f0 = eval_body(find_generic(m0).body.block, args, outer=list(zip(outer_values(m0), outs)))
+        f2 = eval_body(find_generic(m2).body.block, args, outer=list(zip(outer_values(m2), outs)))
         E = eng()
         E.notes.append(f"recognised={rec}")
         if rec:
@@ -135,9 +153,11 @@ def case_body(body):
     def replay(f):
         m0, m1, m2, rec = pipeline()
         argw = body[0]
-        args = [z3.BitVecVal(mval(f["model"], f"x{i}"), w) for i, w in enumerate(argw)]
-        a = irsym.bvval(eval_body(find_generic(m0).body.block, args))
-        b = irsym.bvval(eval_body(find_generic(m2).body.block, args))
+        allv = [z3.BitVecVal(mval(f["model"], f"x{i}"), w) for i, w in enumerate(argw)]
+        args = [v for i, v in enumerate(allv) if i not in captured]
+        outs = [v for i, v in enumerate(allv) if i in captured]
+        a = irsym.bvval(eval_body(find_generic(m0).body.block, args, outer=list(zip(outer_values(m0), outs))))
+        b = irsym.bvval(eval_body(find_generic(m2).body.block, args, outer=list(zip(outer_values(m2), outs))))
         return a != b, dict(inputs=[mval(f["model"], f"x{i}") for i in range(len(argw))], before=a, after=b, kernel=rec,
                             body=body_text(find_generic(m0).body.block), expanded=body_text(find_generic(m2).body.block))
 
@@ -145,7 +165,7 @@ def case_body(body):
         d = v.get("detail") or {}
         k = "+".join(d.get("kernel", [])) if isinstance(d, dict) else ""
         canonical = body in CANON_SET
-        return f"{f['name']}|kernel={k}|" + ("canonical_body" if canonical else "differently_wired_body")
+        return f"{f['name']}|kernel={k}|" + ("canonical_body" if canonical else "body_capturing_an_outside_value" if captured else "differently_wired_body")
 
     return run_case(fn, replay, signature=sig, sample=dict(body=str(body)), key=str(body), timeout_ms=20000)
 
@@ -640,6 +660,27 @@ def run(chk):
             for sub in itertools.combinations(bins, r_):
                 ops = [tuple(o) if i not in sub else (o[0], o[2], o[1]) for i, o in enumerate(b[1])]
                 add((b[0], ops, b[2]))
+    # canonical bodies in which one operand is a value captured from outside the body (defined in front of the generic)
+    # of the same width: never the kernel, whatever the remaining wiring says
+    captured_bodies = []
+    for b in canon:
+        argw, ops, y = b
+        n = len(argw)
+        ws = body_types(b)
+        sh = lambda j: j if j < n - 1 else j + 1  # the captured value sits right before the output argument
+        for i, o in enumerate(ops):
+            for pos in range(1, 2 if o[0] == "extsi" else 3):
+                w = ws[o[pos]]
+                nargw = tuple(argw[:n - 1]) + (w, argw[-1])
+                nops = []
+                for i2, o2 in enumerate(ops):
+                    o3 = [o2[0]] + [sh(x) for x in o2[1:3]] if o2[0] != "extsi" else ["extsi", sh(o2[1]), o2[2]]
+                    if i2 == i:
+                        o3[pos] = n - 1
+                    nops.append(tuple(o3))
+                nb = (nargw, tuple(nops), sh(y), frozenset([n - 1]))
+                if valid(nb[:3]):
+                    captured_bodies.append(nb)
     # qmac: canonical + single-edge rewirings
     for b in canon:
         if len(b[1]) >= 4:
@@ -652,6 +693,7 @@ def run(chk):
         ks = set(keep)
         rest = [b for b in bodies if b not in ks]
         bodies = keep + rnd.sample(rest, max(0, 1600 - len(keep)))
+    bodies = bodies + captured_bodies
     if only in (None, "body"):
         chk.add_results("recognition_and_expansion", pmap(case_body, bodies, chunks=8))
     kcases = [(k, (w, w, w)) for k in ("mul", "add", "mac") for w in WIDTHS]
